@@ -7,8 +7,9 @@
     (partial), covered by execution (stress runs, -race) and not by these theorems. *)
 From Coq Require Import List Arith Bool Lia.
 From Coq Require Import ZArith NArith String.
-From PintV Require Import Model.KeyLockKeys Proofs.C14_keys.
-From PintV Require Import Model.KeyLock Model.KeyLockCache Proofs.C14_lists Proofs.C14_lts Proofs.C14_props Proofs.C14_refine.
+From PintV Require Import Common.Bytes Model.KeyLockKeys.
+From PintV Require Import Model.KeyLock Model.KeyLockCache Proofs.C14_lists Proofs.C14_lts Proofs.C14_props Proofs.C14_refine Proofs.C14_keys.
+From PintV Require Gen.C14.
 Import ListNotations.
 
 (** ** lock_mutex: a lock key has at most one holder; the held set is exactly the keys of the callers
@@ -35,10 +36,10 @@ Proof.
 Qed.
 Print Assumptions C14_no_identical_inflight.
 
-(** The side condition is necessary, and it fails for range slices: two range queries with the same
-    expression and step but different lookbacks take different lock keys and share slice cache keys.
-    Model-level witness: two callers, lock keys 0 and 1, both asking cache key 7, two workers. *)
-Theorem C14_shared_slices_refuted :
+(** The side condition is necessary: two callers holding DIFFERENT lock keys (0 and 1) that ask the same cache
+    key 7, two workers: both requests are in flight at once and the key is answered successfully twice.  (This was
+    the shape of range slices before fix fb76e32, see [C14_lock_key_determines_cache_keys] below.) *)
+Theorem C14_side_cond_necessary :
   exists cf l s, run cf init l = Some s /\ inflight cf s = [7; 7] /\
     exists l2 s2, run cf s l2 = Some s2 /\ served s2 = [(7, 2); (7, 1)].
 Proof.
@@ -47,32 +48,64 @@ Proof.
   eexists. split; [vm_compute; reflexivity|]. split; [reflexivity|].
   exists [AEnd 0 (ROk 1); AEnd 1 (ROk 2)]. eexists. split; vm_compute; reflexivity.
 Qed.
-Print Assumptions C14_shared_slices_refuted.
+Print Assumptions C14_side_cond_necessary.
 
-(** Where the side condition comes from: the key construction of the code (Model/KeyLockKeys.v, compared with the
-    lock keys the real client holds on every run).  Questions other than range queries that share a cache key hold
-    the same lock key; two range questions with the same expression and step but different lookbacks share slice
-    cache keys under DIFFERENT lock keys (the finding); with the lookback removed from the lock key (candidate
-    patch) every shared cache key implies the same lock key. *)
+(** Where the side condition comes from: the key construction of the CURRENT source, regenerated from the Go AST on
+    every run ([Gen.C14.key_table] -> [key_table]: per API method the parts of the partitionLocker key and the parts
+    hashed into the cache key).  The table satisfies the criterion [table_ok]; hence for ALL rows and ALL values of
+    the variables (expression, metric, step, lookback, slice bounds, server URI) two requests with the same cache
+    key are guarded by the same lock key, and a question's lock key does not depend on the slice - for range slices
+    too (fix fb76e32).  With the lookback in the range lock key (the pre-fix table, or any re-introduction of it)
+    the criterion is false and there is a concrete pair of requests with equal cache keys under different locks. *)
 Local Open Scope string_scope.
 Theorem C14_lock_key_determines_cache_keys :
-  (forall q1 q2 s1 s2 k, is_range q1 = false -> is_range q2 = false ->
-     In k (cache_keys q1 s1) -> In k (cache_keys q2 s2) -> lock_key q1 = lock_key q2) /\
-  (forall q1 q2 s1 s2 k, is_range q1 = true -> is_range q2 = false ->
-     In k (cache_keys q1 s1) -> In k (cache_keys q2 s2) -> False) /\
-  (exists q1 q2 s1 s2 k, In k (cache_keys q1 s1) /\ In k (cache_keys q2 s2) /\ lock_key q1 <> lock_key q2) /\
-  (forall q1 q2 s1 s2 k, In k (cache_keys q1 s1) -> In k (cache_keys q2 s2) -> lock_key_fixed q1 = lock_key_fixed q2).
+  table_ok key_table = true /\
+  (forall r1 r2 e1 e2, In r1 key_table -> In r2 key_table ->
+     cache_val r1 e1 = cache_val r2 e2 -> lock_str r1 e1 = lock_str r2 e2) /\
+  (forall r e sl, In r key_table -> lock_str r (with_slice e sl) = lock_str r e) /\
+  table_ok key_table_prefix = false /\
+  (exists r e1 e2, In r key_table_prefix /\ cache_val r e1 = cache_val r e2 /\ lock_str r e1 <> lock_str r e2).
 Proof.
-  repeat split.
-  - exact shared_cache_key_same_lock.
-  - exact range_disjoint_from_others.
-  - exists (QRange "up" "5h" "1m"), (QRange "up" "9h" "1m"), [("1790863200", "1790870399")], [("1790863200", "1790870399")],
-      ["/api/v1/query_range"; "up"; "1790863200"; "1790870399"; "1m"].
-    repeat split; [left; reflexivity | left; reflexivity | discriminate].
-  - exact fixed_key_determines.
+  assert (H : table_ok key_table = true) by (vm_compute; reflexivity).
+  split; [exact H|]. split; [intros r1 r2 e1 e2; now apply keys_sound|].
+  split; [intros r e sl Hr; apply lock_str_with_slice; eapply table_ok_row_ok; eauto|].
+  split; [vm_compute; reflexivity|].
+  exists (mk_row "range" "/" [(true, "/api/v1/query_range"); (false, "expr"); (false, "params.String()")]
+            (match find_row "range" key_table with Some r => kr_cache r | None => [] end)),
+         (with_slice (q_env (QRange "up" "5h" "1m")) ("1790863200", "1790870399")),
+         (with_slice (q_env (QRange "up" "9h" "1m")) ("1790863200", "1790870399")).
+  split; [vm_compute; tauto|]. split; [vm_compute; reflexivity|]. vm_compute. discriminate.
 Qed.
 Print Assumptions C14_lock_key_determines_cache_keys.
 Local Close Scope string_scope.
+
+(** Hence [no_identical_inflight] WITHOUT a side condition on keys, for every set of callers asking questions of the
+    current key table (any values of the variables, any slicing into pairwise different requests, any injective
+    numbering of keys): no two requests with the same cache key are in flight, nor anywhere in the pool. *)
+Theorem C14_no_identical_inflight_questions : forall callers encL encC pool s,
+  (forall a b, encL a = encL b -> a = b) -> (forall a b, encC a = encC b -> a = b) ->
+  (forall c, In (qc_row (callers c)) key_table) ->
+  (forall c, NoDup (q_requests (callers c))) ->
+  reachable (qconfig callers encL encC pool) s ->
+  NoDup (inflight (qconfig callers encL encC pool) s) /\
+  NoDup (map snd (insys (qconfig callers encL encC pool) s)).
+Proof.
+  intros callers encL encC pool s HL HC Hrow Hnd R.
+  assert (SC : side_cond (qconfig callers encL encC pool)).
+  { apply (side_cond_from_table key_table); auto; vm_compute; reflexivity. }
+  pose proof (reachable_inv _ SC s R) as I.
+  split; [apply inflight_nodup | apply insys_ck_nodup]; assumption.
+Qed.
+Print Assumptions C14_no_identical_inflight_questions.
+
+(** Two structural facts of the source the transition system relies on, re-read from the Go AST on every run:
+    partitionLocker.lock re-checks its condition in a loop around Cond.Wait (so [ALock] is only enabled when the key
+    is free), and processJob - the only place a request is run - is called by the pool workers only (so requests in
+    flight are bounded by the pool: [C14_inflight_bound]). *)
+Theorem C14_source_structure :
+  Gen.C14.lock_wait_rechecked_in_loop = true /\ Gen.C14.process_job_callers = ["queryWorker"%string].
+Proof. split; reflexivity. Qed.
+Print Assumptions C14_source_structure.
 
 (** ** served_once: within a cache lifetime (a run without eviction) a cache key has at most one successful
     request; the cache holds its value; every caller that got a successful answer for the key got that
